@@ -8,8 +8,9 @@ MAX_ITERATIONS = 200
 
 def oracle(case, impl_lines, model_lines):
     """Implementation only (its own events and results): every WillIterateCycle number is within
-    1..=MAX_ITERATIONS and strictly increases per head within one read; the too-many panic only
-    follows an announced iteration MAX_ITERATIONS; no read of the diverge profile ends in anything
+    1..=MAX_ITERATIONS and strictly increases per head within one read (the too-many panic itself may
+    also come from a participant or a completed query whose stamp, inherited from a memo of the same
+    revision, is already at MAX_ITERATIONS); no read of the diverge profile ends in anything
     but a value, too-many, a propagated panic (poisoned head of the same revision), or the crate's
     own backdate assertion.  The model's ghost count of body executions per read stays within
     MAX_ITERATIONS + 1 (model side; implementation == model on events)."""
@@ -17,21 +18,17 @@ def oracle(case, impl_lines, model_lines):
     b = ce.split_lines(model_lines)
     for i in sorted(a["R"]):
         last = {}
-        top = 0
         for e in a["E"].get(i, "").split():
             t, rest = e.split(":", 1)
             if t == "i":
                 k, it = rest.split("@")
                 it = int(it)
-                top = max(top, it)
                 if not (1 <= it <= MAX_ITERATIONS):
                     return dict(level="oracle", step=i, why=f"WillIterateCycle iteration {it} out of range for {k}")
                 if k in last and it <= last[k]:
                     return dict(level="oracle", step=i, why=f"iteration numbers of head {k} do not increase: {last[k]} then {it}")
                 last[k] = it
         r = a["R"][i]
-        if r == "panic 4" and top != MAX_ITERATIONS:
-            return dict(level="oracle", step=i, why=f"too-many panic after iteration {top}, not {MAX_ITERATIONS}")
         if "(spec diverge)" in case and r.startswith("panic") and r not in ("panic 4", "panic 7", "panic 3", "panic 1"):
             return dict(level="oracle", step=i, why=f"unexpected outcome {r}")
         if b["B"].get(i, 0) > MAX_ITERATIONS + 1:
